@@ -202,7 +202,10 @@ func callEcho(ctx context.Context, cl mcp.Connector) (string, error) {
 	return fmt.Sprintf("unexpected result %+v", res), nil
 }
 
-func execC07(c C07Case) *Failure {
+func execC07(c C07Case) *Failure { return runC07WithFake(c, nil) }
+
+// runC07WithFake runs the C07 oracle; a non-nil preset (HTTP clients only) replaces the scripted peer built from c.Script.
+func runC07WithFake(c C07Case, preset *FakeServer) *Failure {
 	where := fmt.Sprintf("%s script %v extra=%d", c.Client, scriptNames(c.Script), c.Extra)
 	var cl mcp.Connector
 	var fake *FakeServer
@@ -244,6 +247,9 @@ func execC07(c C07Case) *Failure {
 			fake.Plan = planRaw(c07SSE(c.Script, true), "")
 		case "streamable-get":
 			// the affected call is answered normally; the junk goes to the listening stream
+		}
+		if preset != nil {
+			fake = preset
 		}
 		br := &Bridge{H: fake}
 		opts := []mcp.ClientOption{mcp.WithHTTPReqHandler(br), mcp.WithClientLogger(nopLogger{})}
@@ -300,7 +306,7 @@ func execC07(c C07Case) *Failure {
 		time.Sleep(2 * time.Millisecond) // the scripted call must be the child's first tools/call
 	} else {
 		deadline := time.Now().Add(time.Second)
-		for affected.Load() && time.Now().Before(deadline) && c.Client != "streamable-get" {
+		for preset == nil && affected.Load() && time.Now().Before(deadline) && c.Client != "streamable-get" {
 			time.Sleep(100 * time.Microsecond)
 		}
 	}
